@@ -105,14 +105,16 @@ def run(ctx, report):
     first_bad = None
     for ti, docs3 in enumerate(trials):
         # the second name set orders differently by file name and by stem ('-' sorts before '.'): only the file name counts
-        names = ["generated.json", "overwrite.json", "zz_local.json"] if ti % 2 == 0 else ["overwrite-local.json", "overwrite.json", "zz.json"]
+        names = (["generated.json", "overwrite.json", "zz_local.json"], ["overwrite-local.json", "overwrite.json", "zz.json"],
+                 ["Local.json", "generated.json", "overwrite.json"], ["a_b.json", "aZ.json", "ab.json"])[ti % 4]
+        # third / fourth sets: upper-case and '_' order differently by code point and case-insensitively; code-point order counts
         for order_name, order in (("reverse", lambda xs: sorted(xs, reverse=True)), ("rotated", lambda xs: sorted(xs)[1:] + sorted(xs)[:1])):
             itg = fresh_interp(ctx)
             itg.vfs = {("path", "schwifty", "iban_registry"): list(zip(names, copy.deepcopy(docs3))) + [("README.md", None)]}
             itg.glob_order = order
             o = _run(itg, lambda: itg.call_func(gf, ["iban"], {}, None), "registry.get on a virtual directory")
             want = None
-            for d in docs3:
+            for _, d in sorted(zip(names, docs3)):
                 want = copy.deepcopy(d) if want is None else deep_merge(want, d)
             r_g.instance({"files": names, "docs": docs3} if len(r_g.samples) < 2 else None)
             if (o.kind != "return" or o.value != want) and first_bad is None:
